@@ -155,7 +155,11 @@ def run_c01(rep, tier):
         forks = list(label_forks(4))
         for fx in r.sample(forks, 16):
             tasks.append(('CTL', 4, r.sample(formulas.CTL_SINGLE[7:], 3), dict(fixed=fx, audit=False)))
-    rep.cov['bounds'].update(n='1..3 fully merged (15 unknowns at n=3); n=4 with the 8 label bits forked (%s)' % ('all 256 forks x 6 sampled formulas' if tier == 'thorough' else '16 seeded forks x 3 formulas'),
+        # n=4 completely (all 256 label forks x all 50,625 total relations) for the operators whose algorithms depend on cycle shapes
+        for i in range(0, 256, 8):
+            for fx in forks[i:i + 8]:
+                tasks.append(('CTL', 4, ['E G p', 'A(p U q)', 'E(p R q)'], dict(fixed=fx, audit=False)))
+    rep.cov['bounds'].update(n='1..3 fully merged (15 unknowns at n=3); n=4 with the 8 label bits forked (%s)' % ('all 256 forks x 6 sampled formulas' if tier == 'thorough' else 'all 256 forks for E G p, A(p U q), E(p R q); 16 seeded forks x 3 further formulas; label-free formulas'),
                              formulas=nforms, formula_sets='Phi_1 over {p,q,true,false}; operator pairs; depth-2 with one deep child' + ('; depth 3 over one atom' if tier == 'thorough' else ''),
                              loop_bounds='get_reachable_set_from n+1, compute_SCCs n*n+n+1; remaining-iteration guards are obligations', no_fold='n=2, %d single-operator formulas' % len(raw))
     structures = 0
